@@ -307,7 +307,7 @@ def correspondence(run, cases, variants):
     """flag of the allow-mode (and strict) run + strict reparse outcome: model against the library"""
     ccases = []
     for c in cases:
-        if not isinstance(c["data"].get("type", ""), str) or c.get("prebuilt") or c["route"] == "parse_observable":
+        if not isinstance(c["data"].get("type", ""), str) or c.get("prebuilt") or c["route"] not in ("parse", "construct"):
             continue
         for allow in ((True, False) if c.get("custom") else (True,)):
             ccases.append({"op": "parse" if c["route"] == "parse" else "construct", "cid": c["cid"], "data": c["data"],
@@ -372,6 +372,12 @@ def gen_cases(run, per_class):
             if cl["family"] == "sco" and r.random() < 0.3:
                 route = "parse_observable"          # the entry point for a single observable (version named)
             cases.append({"route": route, "cid": cid, "data": o, "custom": False, "site": "uninjected"})
+            if cl["family"] in ("sdo", "sro") and "modified" in o and i < 2:
+                # versioning.new_version(obj, allow_custom=..., **properties) with a custom property
+                nm = r.choice(["x_new_prop", "foo_bar"])
+                cases.append({"route": "new_version", "cid": cid, "data": {k0: v0 for k0, v0 in o.items() if k0 != "type"},
+                              "extra_props": {nm: r.choice(["v", 1, True])}, "custom": True,
+                              "site": "custom property %s added by new_version at <top> (%s)" % (nm, cid)})
             inj = injections(gen, cid, o)
             # every site once for the first objects of a class, a sample afterwards
             chosen = inj if i < 2 else (r.sample(inj, min(len(inj), 6)) + [t3 for t3 in inj if len(t3) > 3 and t3[3].get("always")])
@@ -393,6 +399,9 @@ def gen_cases(run, per_class):
                 if rt == "construct" and site.startswith("custom_properties key at <top>"):
                     cs["requested"] = True
                 cases.append(cs)
+                if cs["route"] == "construct" and "Bundle" in cid and isinstance(x.get("objects"), list) and not cs.get("prebuilt") \
+                        and r.random() < 0.5:
+                    cases.append(dict({k0: v0 for k0, v0 in cs.items() if k0 != "twice"}, route="construct_positional"))
                 key = site.split(" at ")[0]
                 for w in ("custom property in the first of several", "custom property in the last of several", "specification-defined properties", "pre-built instance carrying", "pre-built instance without", "custom property inside", "custom property given as null", "custom property in registered", "custom property", "hash algorithm",
                           "only hash algorithm", "recognised hash algorithm", "reference to custom type",
